@@ -70,7 +70,17 @@ def worker(args):
     try:
         mod = load(prop)
         sub = next(s for s in mod.SUBS if s.name == subname)
-        res = core.run_shard(sub, tier, seed, shard, nshards, scale)
+        try:
+            res = core.run_shard(sub, tier, seed, shard, nshards, scale)
+        except Exception as e:  # pylint: disable=broad-except
+            from pv.model import BadDefinition
+
+            if not isinstance(e, BadDefinition):
+                raise
+            res = ShardResult()
+            core.evaluate(sub, {"__checkdefs__": True}, res)
+            if not res.failures:
+                raise
         # shrink every bucket found by this shard
         for bucket, ent in res.failures.items():
             t0 = time.monotonic()
@@ -176,10 +186,9 @@ def run(mod, prop, tier, seed, scale, only, t0):
     with ctx.Pool(min(NPROC, max(1, len(tasks)))) as pool:
         results = pool.map(worker, tasks, chunksize=1)
     errs = [r for r in results if r["error"]]
-    if errs:
-        for r in errs[:3]:
-            log(f"--- {r['sub']} shard {r['shard']}:\n{r['error']}")
-        raise HarnessError(f"{len(errs)} shard(s) failed inside the harness")
+    for r in errs[:3]:
+        log(f"--- {r['sub']} shard {r['shard']}:\n{r['error']}")
+    results = [r for r in results if not r["error"]]
 
     per = {}
     for s in subs:
@@ -243,6 +252,7 @@ def run(mod, prop, tier, seed, scale, only, t0):
             "exhaustive": False,
             "regressions_replayed": reg_total,
             "excluded_known": excluded_known,
+            "shards_inconclusive": len(errs),
             "partial_run_only": sorted(only.split(",")) if only else None,
             "subchecks": [
                 {
@@ -277,7 +287,11 @@ def run(mod, prop, tier, seed, scale, only, t0):
         print(f"VIOLATION property={prop} replay={path}")
     log(f"[{prop}] tier={tier} seed={seed} wall={wall:.1f}s violations={len(violations)}")
     if violations:
+        if errs:
+            log(f"[{prop}] note: {len(errs)} shard(s) also ended in a harness error (inconclusive); the violations above stand on their own replay files")
         return 1
+    if errs:
+        raise HarnessError(f"{len(errs)} shard(s) failed inside the harness")
     if starved:
         raise HarnessError("generator starved: " + "; ".join(starved))
     return 0
